@@ -96,6 +96,12 @@ func VerifC19Interrupt(n, e, graphs, mode int) {
 	ctx := context.Background()
 	src, targets := verifFixedSource(n, e, graphs)
 
+	// modes 10, 11, 12: modes 0, 1, 2 with Scrub=full (stub scrubber, see zz_verif_env.go):
+	// the scrub action counts of fragments, graphs and the whole dump are part of the manifest
+	scrubbed := mode >= 10
+	if scrubbed {
+		mode -= 10
+	}
 	coarse := mode >= 3
 	if coarse {
 		// directory-level operations only: these points can be replayed natively
@@ -110,6 +116,10 @@ func VerifC19Interrupt(n, e, graphs, mode int) {
 	options.Compression = CompressionNone
 	options.BatchSize = 1 + verifrt.NondetChoice("batch size", 2)
 	options.ShardSize = 1 + verifrt.NondetChoice("shard size", 2)
+	if scrubbed {
+		options.Scrub = ScrubFull
+		options.Salt = "pepper"
+	}
 	_, err := Dump(ctx, src, "test", targets, options)
 	verifrt.Assert(err == nil, "the uninterrupted reference dump succeeds")
 	if err != nil {
